@@ -170,6 +170,17 @@ def make_combiner():
     return C(), seen_args
 
 
+def make_renamer():
+    from pymbolic.mapper import IdentityMapper
+
+    class Renamer(IdentityMapper):
+        def map_variable(self, expr, *args, **kwargs):
+            if expr.name in ("x", "y"):
+                return p.Variable(expr.name + "_r")
+            return expr
+    return Renamer()
+
+
 class CombineStream(Stream):
     """CombineMapper with list concatenation: which leaves are folded in, in which order"""
     name = "combine"
@@ -180,6 +191,10 @@ class CombineStream(Stream):
         for i in range(n):
             e = g.gen(rng.choice(["num", "any", "bool", "int"]), rng.randint(1, 5))
             yield {"expr": dumps(expr_to_sx(e)), "what": "combine"}
+        g3 = ExprGen(rng, cse=0.05, floats=0.0, foreign=False)
+        for i in range(n // 2):
+            e = g3.gen(rng.choice(["num", "any", "any", "bool"]), rng.randint(1, 5))
+            yield {"expr": dumps(expr_to_sx(e)), "what": "rename"}
         g2 = ExprGen(rng, cse=0.1, floats=0.02, foreign=False)
         for i in range(n // 2):
             e = g2.gen(rng.choice(["num", "any", "bool", "int"]), rng.randint(1, 5))
@@ -188,6 +203,8 @@ class CombineStream(Stream):
     def request(self, pl):
         if pl["what"] == "identity":
             return f"(subst () {pl['expr']})"
+        if pl["what"] == "rename":
+            return f'(subst ((name "x" (Var "x_r")) (name "y" (Var "y_r"))) {pl["expr"]})'
         return f"(combine {pl['expr']})"
 
     def run_impl(self, pl):
@@ -196,6 +213,9 @@ class CombineStream(Stream):
             if pl["what"] == "identity":
                 from pymbolic.mapper import IdentityMapper
                 r = IdentityMapper()(e)
+                return f"({dumps(expr_to_sx(r))} {'false' if r is e else 'true'})"
+            if pl["what"] == "rename":
+                r = make_renamer()(e)
                 return f"({dumps(expr_to_sx(r))} {'false' if r is e else 'true'})"
             m, _ = make_combiner()
             r = m(e, *EXTRA_ARGS, **EXTRA_KW)
@@ -207,6 +227,24 @@ class CombineStream(Stream):
 
     def oracle(self, pl):
         e = sx_to_expr(loads(pl["expr"]))
+        if pl["what"] == "rename":
+            # a leaf-rewriting identity mapper rebuilds exactly along the changed paths: the result
+            # is the tree with the leaves renamed (independent reference: textual renaming of the
+            # serialised tree)
+            try:
+                r = make_renamer()(e)
+            except Exception:
+                return None
+            want = pl["expr"].replace('(Var "x")', '(Var "x_r")').replace('(Var "y")', '(Var "y_r")')
+            zero_cse = any(isinstance(s_, p.CommonSubexpression) and p.is_zero(s_.child)
+                           for s_ in scan.subterms(e))
+            try:
+                got = dumps(expr_to_sx(r))
+            except Exception:
+                return None
+            if got != want and not zero_cse:
+                return Failure("identity-rewrite-lost", f"renaming leaves of {e!r} gives {r!r}", pl)
+            return None
         if pl["what"] == "identity":
             from pymbolic.mapper import IdentityMapper
             try:
